@@ -75,6 +75,10 @@ func (P) Gen(rng *sim.Rng, tier string) *harness.Case {
 	cfg.T = []float64{0, 0.5, 1, 2, 3, 5, 10, 100, 1000, 7, 2.5}[rng.Intn(11)]
 	cfg.StatMs = []uint32{0, 100, 1000, 1000, 10000}[rng.Intn(5)]
 	cfg.QMs = []uint32{0, 1, 10, 100, 500, 2000}[rng.Intn(6)]
+	if rng.Chance(0.15) {
+		// swarm: limits of seconds to weeks (the field is a uint32 of milliseconds; conversions to ns must not narrow)
+		cfg.QMs = []uint32{4294, 4295, 5000, 6000, 8590, 60000, 3600000, 4294967, 4294967295}[rng.Intn(9)]
+	}
 	if cfg.Conc && cfg.T == 0 {
 		cfg.T = 2
 	}
